@@ -124,6 +124,9 @@ func (rl *ruleLoader) objectEndAfterRuleName(lex lexeme.LexEvent) {
 }
 
 func (rl *ruleLoader) ruleValueBegin(lex lexeme.LexEvent) {
+	if lex.Type() == lexeme.NewLine { // a line break between the rule name and the colon
+		return
+	}
 	if lex.Type() != lexeme.ObjectValueBegin {
 		panic(errs.ErrLoader.F())
 	}
@@ -131,6 +134,9 @@ func (rl *ruleLoader) ruleValueBegin(lex lexeme.LexEvent) {
 }
 
 func (rl *ruleLoader) ruleValue(lex lexeme.LexEvent) {
+	if lex.Type() == lexeme.NewLine { // a line break between the colon and the rule value
+		return
+	}
 	if rl.nodesPerCurrentLineCount == 0 {
 		panic(errs.ErrIncorrectRuleWithoutExample.F())
 	} else if rl.nodesPerCurrentLineCount != 1 {
